@@ -240,6 +240,7 @@ fn try_to_service_result(
                 exec_ctx
                     .cid_state
                     .track_service_result(failed_value, tetraplet.clone(), argument_hash.clone())?;
+            exec_ctx.record_call_cid(&tetraplet.peer_pk, &service_result_agg_cid);
             let error = CallResult::failed(service_result_agg_cid);
 
             trace_ctx.meet_call_end(error);
